@@ -34,6 +34,77 @@ def single_call_value(fn):
     return rv
 
 
+def _map_tree(v, fn_, memo=None):
+    """bottom-up rebuild of a value tree; fn_(node with mapped children) -> node"""
+    if memo is None:
+        memo = {}
+    key = id(v)
+    if key in memo:
+        return memo[key]
+    k = v[0]
+    if k == 'call':
+        r = ('call', v[1], [_map_tree(a, fn_, memo) for a in v[2]], v[3])
+    elif k == 'agg':
+        r = ('agg', v[1], v[2], v[3], {f: _map_tree(x, fn_, memo) for f, x in v[4].items()})
+    elif k == 'field':
+        r = prov.project_field(_map_tree(v[1], fn_, memo), v[2])
+    elif k == 'variant':
+        r = prov.project_variant(_map_tree(v[1], fn_, memo), v[2])
+    elif k == 'binop':
+        r = ('binop', v[1], _map_tree(v[2], fn_, memo), _map_tree(v[3], fn_, memo))
+    elif k == 'unop':
+        r = ('unop', v[1], _map_tree(v[2], fn_, memo))
+    elif k == 'cast':
+        r = ('cast', v[1], _map_tree(v[2], fn_, memo), v[3])
+    elif k == 'phi':
+        r = prov.phi([_map_tree(x, fn_, memo) for x in v[1]])
+    elif k == 'mut':
+        r = ('mut', _map_tree(v[1], fn_, memo), v[2], v[3] if len(v) > 3 else ())
+    elif k == 'update':
+        r = ('update', _map_tree(v[1], fn_, memo), {p_: _map_tree(x, fn_, memo) for p_, x in v[2].items()})
+    elif k in ('discr', 'len'):
+        r = (k, _map_tree(v[1], fn_, memo))
+    else:
+        r = v
+    r = fn_(r)
+    memo[key] = r
+    return r
+
+
+def same_as_nth_at(F, adt, f, const):
+    """the value next()/last() returns equals the value nth() returns for n := const, both expanded through private helpers and closures, with the
+    identities min(0, x) = 0 and min(usize::MAX, x) = x on usize"""
+    import combin
+    nth = F.method(adt, 'nth', inherent_only=True)
+    if nth is None or len(f.j.get('inputs', [])) != 2 or len(nth.j.get('inputs', [])) != 3:
+        return False
+
+    def expanded(g):
+        rv = prov.prov_of(g).return_value()
+        rv = prov.inline_all(F, rv, depth=2, _seen=(g.path,), only=lambda f_: not f_.get('trait') and (f_.get('impl_adt') or '') == adt and f_.get('name') not in ('nth', 'next', 'last', 'new'))
+        return combin.expand(F, rv)
+
+    def simp(n_):
+        if n_[0] == 'call' and n_[1].get('name') == 'min' and len(n_[2]) == 2:
+            a, b = n_[2]
+            for x, y in ((a, b), (b, a)):
+                cv = prov.const_val(prov.strip(x))
+                if cv == '0':
+                    return x
+                if cv == USIZE_MAX:
+                    return y
+        return n_
+
+    cnode = ('const', {'k': 'const', 'ty': 'usize', 'tk': 'uint', 'val': const})
+    a = _map_tree(expanded(f), simp)
+    b = _map_tree(prov.subst(expanded(nth), {3: cnode}), simp)
+    sa, sb = prov.show(a, maxdepth=40), prov.show(b, maxdepth=40)
+    # closures are named after the function they are written in
+    import re as _re
+    norm = lambda t: _re.sub(r'::(next|last|nth)::\{closure#\d+\}', '::{closure}', t)
+    return 'nth(' in sa and norm(sa) == norm(sb)
+
+
 def r1(ctx, F):
     n = 0
     types = [(gp_adt(m), CAP[m] + 'GradualPerformance') for m in MODES] + [(GP, 'GradualPerformance')]
@@ -53,6 +124,10 @@ def r1(ctx, F):
                 # the wrapper may also dispatch straight to its payload's next / last (each of which is nth(0) / nth(usize::MAX), judged above)
                 if wrapper_arms(ctx, F, 'C15-R1', short, name, f, gp_adt) == len(MODES):
                     continue
+            if not (good and ncalls == 1) and same_as_nth_at(F, adt, f, const):
+                ctx.ok('C15-R1', '%s::%s' % (short, name), '%s(state) computes exactly what nth(state, %s) computes (both bodies expanded through their shared private helper, '
+                       'n := %s, min(0, x) = 0 / min(usize::MAX, x) = x)' % (name, 'usize::MAX' if const != '0' else '0', 'usize::MAX' if const != '0' else '0'), f.where())
+                continue
             ctx.require(good and ncalls == 1, 'C15-R1', '%s::%s' % (short, name),
                         '%s(state) = self.nth(state, %s)' % (name, 'usize::MAX' if const != '0' else '0'), f.where(),
                         bad='%s::%s is `%s`, expected exactly self.nth(state, %s)' % (short, name, prov.show(rv, maxdepth=3),
